@@ -1237,6 +1237,45 @@ def gen_thresholds(root):
     out.append('/-- `Direction::threshold_length`: direction -> CellGrid length used -/')
     out.append('def thresholdLengthOf : List (String × String) := [' +
                ', '.join('("%s", "%s")' % pr for pr in sorted(pairs)) + ']')
+    # Signal::intensity and the level each `line_*overlap` predicate of the table conditions asks for
+    p = os.path.join(src_dir, 'buffer', 'property_buffer', 'property.rs')
+    src = read(p)
+    m = _re.search(r'fn intensity\(&self\) -> u8 \{\s*match self \{(.*?)\}', src, _re.S)
+    if not m:
+        raise GenError(p, 1, 'cannot find Signal::intensity')
+    ints = _re.findall(r'Signal::(\w+)\s*=>\s*(\d+)', m.group(1))
+    if len(ints) != 4:
+        raise GenError(p, 1, 'Signal::intensity has %d arms' % len(ints))
+    out.append('/-- `Signal::intensity` -/')
+    out.append('def signalIntensity : List (String × Nat) := [' + ', '.join('("%s", %s)' % a for a in ints) + ']')
+    levels = []
+    for fn in ('line_overlap', 'line_strongly_overlap', 'line_weakly_overlap'):
+        m = _re.search(r'fn %s\(&self, a: Point, b: Point\) -> bool \{\s*self\.line_overlap_with_signal\(a, b, (?:Signal::)?(\w+)\)' % fn, src)
+        if not m:
+            raise GenError(p, 1, 'cannot find the level of %s' % fn)
+        levels.append((fn, m.group(1)))
+        # the table translator maps the predicate names to levels itself (OVERLAP): they must agree with the source
+        if OVERLAP[fn] != '.' + m.group(1).lower():
+            raise GenError(p, 1, '%s asks for %s, the translator assumes %s' % (fn, m.group(1), OVERLAP[fn]))
+    out.append('/-- the signal level each overlap predicate of the table conditions requires -/')
+    out.append('def overlapLevels : List (String × String) := [' + ', '.join('("%s", "%s")' % a for a in levels) + ']')
+    m = _re.search(r'fn line_overlap_with_signal\(.*?\) -> bool \{(.*?)\n    \}', src, _re.S)
+    if not m or not _re.search(r'signal\s*>=\s*&?required_signal|\*signal\s*>=\s*required_signal|signal\.intensity\(\)\s*>=', m.group(1)):
+        # recorded, not fatal: the comparison is covered by the byte-level correspondence
+        out.append('def overlapComparison : String := "unrecognised"')
+    else:
+        out.append('def overlapComparison : String := "signal >= required"')
+    # Fragment::rank
+    p = os.path.join(src_dir, 'buffer', 'fragment_buffer', 'fragment.rs')
+    src = read(p)
+    m = _re.search(r'fn rank\(&self\) -> u8 \{\s*match self \{(.*?)\n        \}', src, _re.S)
+    if not m:
+        raise GenError(p, 1, 'cannot find Fragment::rank')
+    ranks = _re.findall(r'Fragment::(\w+)\s*(?:\(_\)|\{ \.\. \})\s*=>\s*(\d+)', m.group(1))
+    if len(ranks) != 8:
+        raise GenError(p, 1, 'Fragment::rank has %d arms' % len(ranks))
+    out.append('/-- `Fragment::rank` -/')
+    out.append('def fragmentRank : List (String × Nat) := [' + ', '.join('("%s", %s)' % a for a in ranks) + ']')
     out.append('')
     out.append('end Svgbob.Gen')
     return '\n'.join(out) + '\n'
